@@ -11,6 +11,10 @@ import (
 type Value interface{}
 
 type StructV struct{ F []Value }
+
+// ArrV is an array whose elements are not scalars (structs, strings, …):
+// a Go-side vector, indexable by constants only.
+type ArrV struct{ E []Value }
 type TupleV struct{ E []Value }
 
 // PE is one step of an access path inside an object.
@@ -194,7 +198,14 @@ func (x *Exec) zeroV(t types.Type) Value {
 		if es != nil {
 			return b.ConstArr(sortOf(t), x.zeroV(u.Elem()).(*Term))
 		}
-		unsupported("array of %v", u.Elem())
+		if u.Len() > 4096 {
+			unsupported("large array of %v", u.Elem())
+		}
+		av := &ArrV{}
+		for i := int64(0); i < u.Len(); i++ {
+			av.E = append(av.E, x.zeroV(u.Elem()))
+		}
+		return av
 	case *types.Pointer:
 		return &PtrV{}
 	case *types.Interface:
@@ -303,6 +314,13 @@ func (x *Exec) iteV(c *Term, a, bb Value) Value {
 		r := &StructV{F: make([]Value, len(p.F))}
 		for i := range p.F {
 			r.F[i] = x.iteV(c, p.F[i], q.F[i])
+		}
+		return r
+	case *ArrV:
+		q := bb.(*ArrV)
+		r := &ArrV{E: make([]Value, len(p.E))}
+		for i := range p.E {
+			r.E[i] = x.iteV(c, p.E[i], q.E[i])
 		}
 		return r
 	case *TupleV:
@@ -439,6 +457,13 @@ func (x *Exec) adaptIdx(arr *Term, idx *Term) *Term {
 
 func (x *Exec) getPath(v Value, p []PE) Value {
 	for _, e := range p {
+		if av, ok := v.(*ArrV); ok && e.Index != nil {
+			if !isC(e.Index) || e.Index.Val >= uint64(len(av.E)) {
+				unsupported("symbolic index into an array of non-scalar elements")
+			}
+			v = av.E[e.Index.Val]
+			continue
+		}
 		if e.Index != nil {
 			a := v.(*Term)
 			v = x.sel(a, x.adaptIdx(a, e.Index))
@@ -454,6 +479,14 @@ func (x *Exec) setPath(v Value, p []PE, nv Value) Value {
 		return nv
 	}
 	e := p[0]
+	if av, ok := v.(*ArrV); ok && e.Index != nil {
+		if !isC(e.Index) || e.Index.Val >= uint64(len(av.E)) {
+			unsupported("symbolic index into an array of non-scalar elements")
+		}
+		n := &ArrV{E: append([]Value{}, av.E...)}
+		n.E[e.Index.Val] = x.setPath(av.E[e.Index.Val], p[1:], nv)
+		return n
+	}
 	if e.Index != nil {
 		if len(p) != 1 {
 			unsupported("store into a nested array element")
